@@ -44,6 +44,86 @@ ASSUMPTIONS = ["the inner one-shot codec is the identity / ascii check (test sub
 SEPS = [b"\n", b"\r\n", b"aa", b"aba", b"\r", b"abc"]
 
 
+# ------------------------------------------------------------------ create_deserializer_buffer -> Gen/ParamsC07.v
+
+_ALLOC_SITES = [   # (Coq name, file, class, attribute standing for the second parameter)
+    ("autosep_alloc", "serializers/base_stream.py", "AutoSeparatedPacketSerializer", "__limit"),
+    ("line_alloc", "serializers/line.py", "StringLineSerializer", "__limit"),
+    ("fixed_alloc", "serializers/base_stream.py", "FixedSizePacketSerializer", "__size"),
+    ("filebased_alloc", "serializers/base_stream.py", "FileBasedPacketSerializer", "__limit"),
+    ("compressor_alloc", "serializers/wrapper/compressor.py", "AbstractCompressorSerializer", None),
+]
+
+
+def _alloc_expr(node, env, attr, where):
+    """size expression of create_deserializer_buffer -> Coq term over N (variables: sizehint, param)"""
+    import ast
+    from common.runner import TranslateError
+    if isinstance(node, ast.Name):
+        if node.id in env:
+            return env[node.id]
+        import easynetwork.lowlevel.constants as consts
+        v = getattr(consts, node.id, None)
+        if isinstance(v, int) and not isinstance(v, bool) and v >= 0:
+            return f"{v}%N"
+        raise TranslateError(f"{where}: unknown name {node.id}")
+    if isinstance(node, ast.Constant) and isinstance(node.value, int) and not isinstance(node.value, bool) and node.value >= 0:
+        return f"{node.value}%N"
+    if (isinstance(node, ast.Attribute) and isinstance(node.value, ast.Name) and node.value.id == "self"
+            and attr is not None and node.attr == attr):
+        return "param"
+    if (isinstance(node, ast.Call) and isinstance(node.func, ast.Name) and node.func.id in ("min", "max")
+            and len(node.args) == 2 and not node.keywords):
+        a, b = (_alloc_expr(x, env, attr, where) for x in node.args)
+        return f"(N.{node.func.id} {a} {b})"
+    if isinstance(node, ast.BinOp) and isinstance(node.op, (ast.Add, ast.Mult)):
+        a, b = _alloc_expr(node.left, env, attr, where), _alloc_expr(node.right, env, attr, where)
+        return f"(N.{'add' if isinstance(node.op, ast.Add) else 'mul'} {a} {b})"
+    raise TranslateError(f"{where}: unsupported size expression {ast.unparse(node)}")
+
+
+def params():
+    """How many bytes each buffered serializer allocates for its receive buffer, as Coq functions of (sizehint, limit or
+    packet size), translated from the bodies of create_deserializer_buffer."""
+    import ast
+    import os
+    from common.runner import REPO, TranslateError
+    out = ["From Coq Require Import NArith.", "Local Open Scope N_scope."]
+    for name, rel, cname, attr in _ALLOC_SITES:
+        where = f"{cname}.create_deserializer_buffer"
+        tree = ast.parse(open(os.path.join(REPO, "src", "easynetwork", rel)).read())
+        klass = [n for n in tree.body if isinstance(n, ast.ClassDef) and n.name == cname]
+        fns = [n for k in klass for n in k.body if isinstance(n, ast.FunctionDef) and n.name == "create_deserializer_buffer"]
+        if len(klass) != 1 or len(fns) != 1:
+            raise TranslateError(f"{where}: definition not found")
+        fn = fns[0]
+        if [a.arg for a in fn.args.posonlyargs + fn.args.args] != ["self", "sizehint"]:
+            raise TranslateError(f"{where}: unexpected parameters")
+        stmts = [st for st in fn.body
+                 if not (isinstance(st, ast.Expr) and isinstance(st.value, ast.Constant) and isinstance(st.value.value, str))]
+        env = {"sizehint": "sizehint"}
+        for st in stmts[:-1]:
+            if isinstance(st, ast.AnnAssign) and isinstance(st.target, ast.Name) and st.value is not None:
+                env[st.target.id] = _alloc_expr(st.value, env, attr, where)
+            elif isinstance(st, ast.Assign) and len(st.targets) == 1 and isinstance(st.targets[0], ast.Name):
+                env[st.targets[0].id] = _alloc_expr(st.value, env, attr, where)
+            else:
+                raise TranslateError(f"{where}: unsupported statement {ast.unparse(st)}")
+        ret = stmts[-1] if stmts else None
+        if not isinstance(ret, ast.Return) or ret.value is None:
+            raise TranslateError(f"{where}: does not end with a return")
+        val = ret.value
+        if (isinstance(val, ast.Call) and isinstance(val.func, ast.Name) and val.func.id == "memoryview"
+                and len(val.args) == 1 and not val.keywords):
+            val = val.args[0]
+        if not (isinstance(val, ast.Call) and isinstance(val.func, ast.Name) and val.func.id == "bytearray"
+                and len(val.args) == 1 and not val.keywords):
+            raise TranslateError(f"{where}: does not return a bytearray(size) / memoryview(bytearray(size))")
+        out.append(f"(* {rel} {where}: {ast.unparse(ret)} *)")
+        out.append(f"Definition {name} (sizehint param : N) : N := {_alloc_expr(val.args[0], env, attr, where)}.")
+    return "\n".join(out) + "\n"
+
+
 def payload_for(sep: bytes, n: int, rng):
     """n bytes without an occurrence of sep, built mostly from sep's own bytes (worst case for resumed search)."""
     alphabet = bytes(set(sep)) + b"xy"
@@ -64,7 +144,31 @@ def mk(kind, sep, limit, keep_end, hint, chunks, impl):
 
 def cases(tier, rng, escalate):
     yield from cases_extra(tier, rng, escalate)
+    yield from cases_big(tier, rng, escalate)
     yield from cases_sep(tier, rng, escalate)
+
+
+def cases_big(tier, rng, escalate):
+    """limits above the default receive size (16 KiB) with small and large buffer-size hints: the buffer-filling path
+    must still accept a frame just under the limit (its buffer is `limit` bytes whatever the hint) and still bound what
+    it holds"""
+    thorough = tier == "thorough" or escalate
+    limit = 16 * 1024 + rng.choice([300, 616, 1000])
+    for sep, impl in ((b"\n", [b"autosep"]), (b"\r\n", [b"line", b"ascii"])):
+        seplen = len(sep)
+        for kind in (0, 1):
+            plans = [(limit - seplen - 1 - rng.randrange(0, 3), True, 4096), (limit + seplen + 4096 + 1, False, 4096)]
+            if thorough:
+                plans += [(limit - seplen - 2, True, 65536), (limit - seplen - 1, True, 1000)]
+            for plen, terminated, R in plans:
+                payload = payload_for(sep, plen, rng)
+                stream = payload + (sep + b"q" + sep if terminated else b"")
+                hint = rng.choice([64, 4096, 65536])
+                chunks = [stream[i:i + R] for i in range(0, len(stream), R)]
+                yield dict(input=mk(kind, sep, limit, False, hint, chunks, impl),
+                           tags=[f"kind{kind}", impl[0].decode(), f"seplen{seplen}", "big-limit",
+                                 "terminated" if terminated else "unterminated", "near-boundary"],
+                           nontrivial=True)
 
 
 def cases_sep(tier, rng, escalate):
@@ -159,10 +263,12 @@ def cases_extra(tier, rng, escalate):
                     continue
                 stream = bytes([250]) + bytes(rng.choice(b"abc") for _ in range(n - 1))
                 hint = rng.choice([1, 2, 3, 8, 64])
-                cfg = [limit, sc2.FB_EXPECTED] + ([hint] if kind == 6 else [])
+                expected = sc2.FB_EXPECTED_BROAD if rng.random() < 0.35 else sc2.FB_EXPECTED
+                cfg = [limit, expected] + ([hint] if kind == 6 else [])
                 for chunks in _chunkings(stream, R, rng, thorough):
                     yield dict(input=sc2.make_simple_case(kind, cfg, [b"fb", b"eager"], chunks),
-                               tags=[f"kind{kind}", "filebased", "unterminated", "near-boundary" if abs(n - limit) <= 3 else "far"],
+                               tags=[f"kind{kind}", "filebased", "unterminated", "near-boundary" if abs(n - limit) <= 3 else "far",
+                                     "expected=Exception" if expected is sc2.FB_EXPECTED_BROAD else "expected=ValueError"],
                                nontrivial=abs(n - limit) <= 3)
 
 
